@@ -523,6 +523,13 @@ def main():
          "import Amgcl.Properties.C10",
          "import Amgcl.Properties.C10b",
          "import Amgcl.Properties.C10c",
+         "import Amgcl.Properties.C10d",
+         "import Amgcl.Properties.C10e",
+         "import Amgcl.Properties.C10f",
+         "import Amgcl.Properties.C10g",
+         "import Amgcl.Properties.C10h",
+         "import Amgcl.Properties.C10i",
+         "import Amgcl.Properties.C10j",
          "/-! Every heap allocation of the (non-GPU) library sources whose cells are left unwritten by the allocating",
          "expression, and the obligation that each one is accounted for in `Amgcl.AllocCover.coveredKeys` (by a definedness",
          "theorem or by a poisoned-heap differential run).",
